@@ -175,6 +175,21 @@ def run(prop, tier, seed, replay=None, rep=None, finish=True):
                     filt = st['filt']
                     args.append(('S-%05d' % k, corpora, srcfmt, destfmt, st['split'], filt, None, seed + k))
                     k += 1
+            if prop == 'C03':
+                # sources whose trees lack values (TIGER-XML without the optional attributes, the bracket formats)
+                # into every destination that has a field for them, with the options that add fields
+                one = [st for st in structs if not st['split'] and len(st['src']) == 1 and len(st['src'][0]) >= 1
+                       and not any(t['disc'] for t in st['src'][0])]
+                combos = [(s_, d_, o_) for s_ in ('tigerxml', 'brackets', 'discobrackets')
+                          for (d_, o_) in (('export', ['export_four']), ('export', []), ('tigerxml', []),
+                                           ('export', ['gf']), ('discobrackets', ['gf']))]
+                for j, (s_, d_, o_) in enumerate(combos * (1 if tier == 'quick' else 6)):
+                    st = one[j % len(one)]
+                    Ts = [rnd.choice(pool[(t['len'], False)]) for t in st['src'][0] if pool.get((t['len'], False))]
+                    if Ts:
+                        args.append(('S-%05d' % k, [Ts], s_, d_, [], st['filt'], None, seed + k, 'tlc', True,
+                                     {'destopts': o_, 'tiger_missing': True}))
+                        k += 1
             rep.exhaustive = True
             cases = core.pmap(fam_cli.record_cli_case, args, chunksize=4)
         ocases = []
